@@ -384,7 +384,8 @@ class Response:
                 filesize = os.fstat(fileno).st_size
                 nbytes = filesize - offset
             else:
-                nbytes = self.response_length
+                # what is left of the declared length after earlier write()s
+                nbytes = max(self.response_length - self.sent, 0)
         except (OSError, io.UnsupportedOperation):
             return False
 
